@@ -1143,6 +1143,14 @@ def traceback_probe(position, source, lead):
             import time
             os.utime(fn, (time.time() + 5, time.time() + 5))       # whole seconds later than the module file
             t = Template(filename=fn, module_directory=real_mods, **tkw)
+        elif source == "relative-module-filename":
+            # module_filename given relative to the working directory (also what a modulename_callable may return)
+            cwd = os.getcwd()
+            os.chdir(base)
+            try:
+                t = Template(filename=fn, module_filename=os.path.join("modules", "t.py"), **tkw)
+            finally:
+                os.chdir(cwd)
         elif source == "module-directory-through-symlink":
             t = Template(filename=fn, module_directory=os.path.join(link, "modules"), **tkw)
         elif source == "lookup-through-symlink":
